@@ -164,7 +164,8 @@ func hmExecSet(hm *HashMap, values []r.Element) (r.Element, error) {
 	}
 	// key name
 	keyName := values[0].(*String).value
-	hm.AppendKVPair(KVPair{keyName, values[1]})
+	// store a copy ('copycat by default' - also avoids that a hashmap contains itself)
+	hm.AppendKVPair(KVPair{keyName, DuplicateValue(values[1])})
 	return values[1], nil
 }
 
